@@ -25,6 +25,9 @@ def base_models(tmpdir):
     done = F.with_teams({"tasks": [{"name": "T0", "work": 2.0, "progress": 1.0}, {"name": "T1", "work": 1.0, "progress": 1.0}], "links": [[0, 1, "FS"]]}, "POOL1")
     out.append((done, "everything-done-from-the-start"))  # a result of length zero
     out += [(sp, sp["label"]) for sp in F.scale_specs() if sp["label"] in ("scale:8components",)]
+    wheels = dict(F.with_teams({"tasks": [{"name": "T0", "work": 2.0}, {"name": "T1", "work": 3.0}, {"name": "T2", "work": 1.0}], "links": [[0, 2, "FS"], [1, 2, "FS"]]}, "POOL2"),
+                  components=[{"name": "bolt", "id": "bolt-1", "tasks": [0]}, {"name": "bolt", "id": "bolt-2", "tasks": [1]}, {"name": "plate", "tasks": [2]}], value_eq_components=True)
+    out.append((wheels, "equal-parts-of-a-user-subclass"))  # two parts that compare equal (same part name), each with a log of its own
     long_ = F.with_teams({"tasks": [{"name": F.tname(i), "work": 10.0} for i in range(30)], "links": [[i, i + 1, "FS"] for i in range(29)]}, "POOL1")
     long_["sim_max_time"] = 330
     out.append((long_, "long-run-300"))  # a result of 300 steps (step numbers beyond the interpreter's cache of small integers)
@@ -50,7 +53,11 @@ def start_project(spec, sim_absence):
             if hasattr(t, "set_all_attributes_from_json") and t.file_path:
                 t.set_all_attributes_from_json(remove_absence_time_list=False)
                 t.set_work_amount_progress_of_unit_step_time(m.project.unit_timedelta)
-    if sim_absence and sim_absence[0] == "resumed":
+    if sim_absence and sim_absence[0] == "revised":
+        # a run stopped at step 2 whose first part was planned with the holiday sim_absence[1:] (all of it after the stop); the continuation cancels it
+        m.project.simulate(max_time=2, absence_time_list=list(sim_absence[1:]))
+        m.project.simulate(max_time=spec.get("sim_max_time", 40), absence_time_list=[], initialize_state_info=False, initialize_log_info=False)
+    elif sim_absence and sim_absence[0] == "resumed":
         # a run stopped at step 2 and continued with state and logs kept
         m.project.simulate(max_time=2, absence_time_list=list(sim_absence[1:]))
         m.project.simulate(max_time=spec.get("sim_max_time", 40), absence_time_list=list(sim_absence[1:]), initialize_state_info=False, initialize_log_info=False)
@@ -252,7 +259,9 @@ def replay_history(spec, sim_absence, hist):
             if dead:
                 return m, viol, True
             continue
-        base = logs(m) if (op[0] == "insert" and (free or not m.project.absence_time_list)) else None
+        # (a "revised" start state is absence-free by what was DECLARED: the holiday lay after the stop and was cancelled - whatever list the project keeps)
+        declared_free = k == 0 and bool(sim_absence) and sim_absence[0] == "revised" and all(a >= 2 for a in sim_absence[1:])
+        base = logs(m) if (op[0] == "insert" and (free or declared_free or not m.project.absence_time_list)) else None
         free = False
         got, dead = apply_and_check(m, op, spec)
         for sig, det in got:
@@ -358,7 +367,7 @@ def run(tier, seed):
         depth = 2 if tier == "quick" else 3
         items = []
         for sp, label in base_models(tmpdir):
-            for sim_abs in ((), (1,), (0, 2), (1, 30, 31), (1, 3, 1, 40), (2, 2), ("back", 1), ("back", 1, 3, 40, 41), ("resumed",), ("resumed", 3)):
+            for sim_abs in ((), (1,), (0, 2), (1, 30, 31), (1, 3, 1, 40), (2, 2), ("back", 1), ("back", 1, 3, 40, 41), ("resumed",), ("resumed", 3), ("revised", 3), ("revised", 2, 4)):
                 if tier == "quick" and label.startswith("scale:") and sim_abs not in ((), (1,), ("back", 1), ("resumed",)):
                     continue  # (the medium-sized model takes four of the ten start states in the quick tier)
                 if label.startswith("long-") and sim_abs not in ((), (1, 30, 31)):
